@@ -74,7 +74,7 @@ RELATED = {
     "C01": {"C01", "C17"},
     "C02": {"C02"},
     "C03": {"C03"},
-    "C04": {"C04"},
+    "C04": {"C04", "C18"},
     "C05": {"C05", "C01"},
     "C12": {"C12", "C01"},
     "C17": {"C17", "C01"},
